@@ -206,6 +206,9 @@ def run(ctx, rep):
             pass
 
     c13.rule_auto(ctx, _OnlyUnionAuto(rep), only=("ArcUnion",))  # "as a handle of that type": the union is Send/Sync exactly when Arc<A> and Arc<B> both are (C13's impl table)
+    from . import c11 as _c11
+
+    _c11.rule_refcnt_pair(ctx, rep, only=("ArcUnion",))  # (if the union is given arc-swap glue: the tagged word, not the payload address, is what goes in and out)
     balance.rule_count_addr(ctx, rep)  # the union reaches the count only through typed handles, never as "the word before the payload"
     balance.rule_release_retarget(ctx, rep)  # release-then-store through `&mut Handle` must store on unwinding exits too
     for tag, F, E in ctx.each():
